@@ -264,7 +264,7 @@ def write_replay(prop, case, finding, results, seed):
     part of what makes the replay exact (torn-write offsets depend on them)."""
     d = os.path.join(VERIF, "replays")
     os.makedirs(d, exist_ok=True)
-    name = "%s-%s-%s.json" % (prop, seed, hashlib.sha1(case["id"].encode()).hexdigest()[:8])
+    name = "%s-%s-%s.json" % (prop, seed, hashlib.sha1((case["id"] + "|" + finding["class"]).encode()).hexdigest()[:8])
     path = os.path.join(d, name)
     body = {
         "property": prop,
